@@ -53,3 +53,12 @@ pub fn snap_theta(c: &Case, s: f64) -> f64 {
 /// known finding (known_findings.txt, "ill-conditioned"); volumes and centroids of cells are
 /// compared regardless.
 pub const KAPPA_WELL: f64 = 1e6;
+
+/// Known finding "lowdim-large-coordinates": in 1D/2D the library integrates face areas as the
+/// norm of 3D cross products in a slab of unit thickness. The rounding u*L of coordinates of
+/// size L enters relative to that thickness, so for L >~ 1e11 face areas (and face centroids)
+/// lose all accuracy beyond (u L)^2 and for L >~ 1e16 they are meaningless, although vertices
+/// and cell volumes are right. Face areas of such cases are not compared (counted instead).
+pub fn lowdim_area_unreliable(c: &Case) -> bool {
+    c.dim < 3 && U * c.scale_l() > 1e-6
+}
